@@ -445,6 +445,16 @@ class C12(PropCheck):
                                                                           'regression': ident}, tags=[ident])
         sec_reg.flush()
 
+        sec_dense = tolerant_section(
+            run, 'grid-dense-family',
+            'deterministic: dense packing x {row, column} flow, automatic items that leave a hole before the cursor, '
+            'an item locked to one track of the other axis (span 1 or 2 on the auto-flow axis), one more automatic '
+            'item (96 grids, the same in every run); non-trivial = always')
+        for doc in gx.dense_family():
+            sec_dense.add(gx.wire_doc(doc), gx.impl_doc(doc, 5), meta={'kind': 'grid', 'doc': doc},
+                          tags=[f'flow:{doc["flow"]}', f'n{len(doc["items"])}'])
+        sec_dense.flush()
+
         sec = tolerant_section(
             run, 'flex-doc',
             'rendered flex containers of 1..8 empty items (row/column, reverse, wrap, gaps, every justify-content / '
@@ -619,7 +629,7 @@ class C12(PropCheck):
             'never_hit': [b for b in FLEX_BRANCHES + GRID_BRANCHES if b not in hit],
             'unlisted': sorted(t for t in hit if ':' in t and t not in known and not t.startswith(('justify:',))),
             'histogram': {s.name: dict(s.tags) for s in (sec, sec_adv, sec_g)}}
-        for s in (sec_reg, sec, sec_adv, sec_r, sec_g, sec_sh):
+        for s in (sec_reg, sec_dense, sec, sec_adv, sec_r, sec_g, sec_sh):
             s.flush()
             rounding[s.name] = s.float_rounding
         run.extra['float_rounding'] = rounding
